@@ -143,6 +143,14 @@ def gen_units(rng, family):
 ODD_NAMES = ["", "0", " ", "a b", "{}", "%s", "None", "False", "I$", "D$", "L1$data", "${state}", "$state", "$$", "\u00e9x", "\u00df", "\u0130"]
 
 
+def zero_width(rng, units, family):
+    """directly built processors may have a unit of width 0 (the loader rejects it, the constructors do not): it never
+    hosts anything (seeded change C04-7: `bool(width) and …` made it unbounded)"""
+    if family in ("parts", "small", "wide", "deadend") and rng.random() < 0.04:
+        units[rng.choice(sorted(units))]["width"] = 0
+    return units
+
+
 def odd_names(rng, units, caps):
     """now and then a unit (or a capability) gets an unusual but legal name — the empty string, "0", a blank … — renamed
     consistently, so the structure is unchanged (seeded change C05-9: a flag carrying a unit name was tested for truth)"""
@@ -211,7 +219,19 @@ def build_from_parts(rng, units, edges):
             inp.append(models[u])
         else:
             inout.append(models[u])
-    return ProcessorDesc(inp, outp, inout, internal)
+    return ProcessorDesc(*shaped([inp, outp, inout, internal], "|".join(sorted(d["name"] for d in units.values()))))
+
+
+def shaped(args, key):
+    """the four `ProcessorDesc` arguments as lists, tuples or one-shot iterables (`Iterable[...]` is what the converters
+    accept) — chosen by the unit names, so a replay repeats it (seeded change C07-12: a tuple of internal units was
+    taken as already ordered)"""
+    h = int(hashlib.sha1(key.encode()).hexdigest(), 16)
+    out = []
+    for k, a in enumerate(args):
+        kind = (h >> (3 * k)) % 4
+        out.append(tuple(a) if kind == 1 else ((x for x in a) if kind == 2 else (iter(a) if kind == 3 else a)))
+    return out
 
 
 LAST_DESC = [None]       # the description the last `build_from_loader` handed to the real loader
@@ -238,11 +258,30 @@ def build_from_loader(rng, units, edges):
     rng.shuffle(es)
     desc = {"units": us, "dataPath": es}
     try:
-        proc = processor_utils.load_proc_desc(json.loads(json.dumps(desc)))
+        proc = processor_utils.load_proc_desc(raw_locks(desc))
     except Exception:
         return None
     LAST_DESC[0] = desc
     return proc
+
+
+TRUTHY = [True, 1, "y", "Y", "yes", "on", "true", 2]
+FALSY = [False, 0, "", None]
+
+
+def raw_locks(desc):
+    """a private copy of the description for the real loader in which a lock flag may be written as any value of the
+    same truth (YAML gives `y` / `on` as text, `1` as a number): a unit locks iff the flag is true in Python's sense,
+    for the loader's checks and for the simulator alike (seeded change C01-12)"""
+    d = json.loads(json.dumps(desc))
+    for u in d["units"]:
+        for key in ("readLock", "writeLock"):
+            if key in u:
+                h = int(hashlib.sha1((u["name"] + key).encode()).hexdigest(), 16)
+                if h % 4 == 0:
+                    pool = TRUTHY if u[key] else FALSY
+                    u[key] = pool[(h // 4) % len(pool)]
+    return d
 
 
 def gen_prog(rng, incaps, thorough, dense=False, long_prog=False, serial=False):
@@ -335,8 +374,8 @@ def proc_from_json(pj):
     def fu(f):
         return FuncUnit(um(f["model"]), [models[n] for n in f["preds"]])
 
-    return ProcessorDesc([um(d) for d in pj["in"]], [fu(f) for f in pj["out"]],
-                         [um(d) for d in pj["inout"]], [fu(f) for f in pj["internal"]])
+    return ProcessorDesc(*shaped([[um(d) for d in pj["in"]], [fu(f) for f in pj["out"]],
+                                  [um(d) for d in pj["inout"]], [fu(f) for f in pj["internal"]]], "|".join(sorted(models))))
 
 
 def prog_from_json(pj):
@@ -345,7 +384,7 @@ def prog_from_json(pj):
     return [HwInstruction(list(i.get("supplied", i["srcs"])), i["dst"], i["cap"]) for i in pj]
 
 
-def run_impl(proc, prog, history=()):
+def run_impl(proc, prog, history=(), evolved=None):
     """run the real simulator; returns the protocol-form `impl` object.  `history`: programs simulated before, on the
     *same* HwSpec object (their outcomes — returned diagrams, stall errors, anything else — are discarded here): a
     simulation is a function of the processor and the program, whatever the hardware object was used for before
@@ -353,6 +392,12 @@ def run_impl(proc, prog, history=()):
     from sim_services import HwSpec, StallError, simulate
 
     spec = HwSpec(proc)
+    if evolved:
+        # the hardware object derived from another processor's (attr.evolve): it is the HwSpec of `proc` all the same
+        # (seeded change C04-8: a derived attribute that was an init argument survived the evolve)
+        import attr
+
+        spec = attr.evolve(HwSpec(evolved), processor_desc=proc)
     for h in history:
         try:
             with core.watchdog(TIMEOUT):
@@ -395,7 +440,7 @@ def evaluate(inp: dict) -> dict:
         # in a spelling `needs_mem` never matches makes the simulator ignore the memory port)
         import processor_utils
 
-        proc = processor_utils.load_proc_desc(json.loads(json.dumps(inp["desc"])))
+        proc = processor_utils.load_proc_desc(raw_locks(inp["desc"]))
         pj = proc_json(proc)
         la = core.driver().ask({"op": "load", "desc": inp["desc"], "impl": {"ok": True, "proc": {"inPorts": [], "inOut": [], "outPorts": [], "internal": []}}})
         if la["model"].get("ok"):
@@ -425,7 +470,16 @@ def evaluate(inp: dict) -> dict:
         # the stored orders must be the ones the implementation uses: rebuild the protocol form from the object
         pj = proc_json(proc)
     prog = prog_from_json(inp["prog"])
-    impl = run_impl(proc, prog, [prog_from_json(h) for h in inp.get("history", [])])
+    evolved = None
+    if inp.get("evolve"):
+        # another processor: the same units one slot wider, in-out ports dropped
+        oj = json.loads(json.dumps(pj))
+        for u in oj["in"] + oj["inout"]:
+            u["width"] += 1
+        for f in oj["out"] + oj["internal"]:
+            f["model"]["width"] += 1
+        evolved = proc_from_json(oj)
+    impl = run_impl(proc, prog, [prog_from_json(h) for h in inp.get("history", [])], evolved)
     intended = [{"srcs": i["srcs"], "dst": i["dst"], "cap": i["cap"]} for i in inp["prog"]]
     ans = core.driver().ask({"op": "sim", "proc": pj, "prog": intended, "impl": impl})
     wf = bool(ans["wf"])
@@ -459,6 +513,10 @@ def evaluate(inp: dict) -> dict:
         tags.append("reused-HwSpec")
     if inp.get("desc") is not None:
         tags.append("judged-against-description")
+    if inp.get("evolve"):
+        tags.append("evolved-HwSpec")
+    if any(u["width"] == 0 for u in pj["in"] + pj["inout"]) or any(f["model"]["width"] == 0 for f in pj["out"] + pj["internal"]):
+        tags.append("zero-width-unit")
     if any(n in ODD_NAMES for n in [u["name"] for u in pj["in"] + pj["inout"]] + [f["model"]["name"] for f in pj["out"] + pj["internal"]]):
         tags.append("odd-unit-name")
     return {"props": props, "tags": tags, "impl": impl, "model": dict(ans["model"], note=desc_note) if desc_note else ans["model"], "proc": pj}
@@ -529,6 +587,7 @@ def gen_input(case, tier="quick"):
     for _attempt in range(60):
         units, edges, caps = gen_units(rng, family)
         units, caps = odd_names(rng, units, list(caps))
+        units = zero_width(rng, units, family)
         edges = {(a, b) for (a, b) in edges if set(units[a]["caps"]) & set(units[b]["caps"])}
         if family != "illformed" and not py_wf(units, edges, caps):
             continue
@@ -549,6 +608,8 @@ def gen_input(case, tier="quick"):
     inp = {"proc": proc_json(proc), "prog": intended_prog_json(rng, prog)}
     if family == "loader":
         inp["desc"] = LAST_DESC[0]
+    elif rng.random() < 0.08:
+        inp["evolve"] = True
     if rng.random() < 0.15:
         # the same HwSpec object is used for earlier simulations: the same program, other programs, a run that ends in a
         # stall error (an instruction no input port supports)
